@@ -1,4 +1,4 @@
-"""C01 — dump-then-load is the identity (default engine, every text format)."""
+"""C02 — dump-then-load is the identity (v1 engine); loader generation never fails."""
 from __future__ import annotations
 
 import datetime as dt
@@ -13,15 +13,65 @@ OPTS = dict(meta_keys=['key_transform_with_dump', 'marshal_date_time_as_iso', 's
             leaves=gen.LEAVES_DEFAULT)
 
 
+PAIRS = [(None, 'NONE'), ('CAMEL', 'CAMEL'), ('PASCAL', 'PASCAL'), ('KEBAB', 'LISP'), ('SNAKE', 'SNAKE'), ('SNAKE', 'NONE'),
+         ('AUTO', 'CAMEL'), ('AUTO', 'PASCAL'), ('AUTO', 'LISP'), ('AUTO', 'SNAKE'), ('AUTO', 'NONE'), ('C', None), ('A', None)]
+
+
+def strip_shapes(t, indexed=False):
+    """avoid the shapes recorded as known findings for the *correspondence* stream: a fixed-length tuple at an
+    indexed position (inside NamedTuple / TypedDict / fixed tuple) and the value-`None` annotation"""
+    k = t['k']
+    if k == 'none':
+        return {'k': 'optional', 'a': [{'k': 'int'}]}
+    if k == 'tuple' and indexed:
+        return {'k': 'vtuple', 'a': [strip_shapes(t['a'][0] if t.get('a') else {'k': 'int'}, False)]}
+    if k == 'optional':
+        t['a'] = [strip_shapes(t['a'][0], indexed)]
+        return t
+    if k == 'cls':
+        t['ftys'] = [[n, strip_shapes(ft, False)] for n, ft in t['ftys']]
+        return t
+    if k == 'namedtuple':
+        t['fields'] = [[n, strip_shapes(ft, True), d] for n, ft, d in t['fields']]
+        return t
+    if k == 'typeddict':
+        t['fields'] = [[n, strip_shapes(ft, True), r] for n, ft, r in t['fields']]
+        return t
+    if k == 'tuple':
+        t['a'] = [strip_shapes(x, True) for x in t.get('a', [])]
+        return t
+    if k == 'union':
+        t['a'] = [x if x['k'] == 'none' else strip_shapes(x, False) for x in t['a']]
+        return t
+    if 'a' in t:
+        t['a'] = [strip_shapes(x, False) for x in t['a']]
+    return t
+
+
 def make_case(rng):
-    o = gen.Opts(**OPTS)
-    o.meta_keys = ['key_transform_with_dump']
+    o = gen.Opts(meta_keys=[], leaves=gen.LEAVES_DEFAULT + ['bytes', 'bytearray'], meta_prob=0.0, wizard_prob=0.8, py_wizard_prob=0.0)
     ty = gen.gen_cls(rng, rng.choice([0, 1, 2, 2, 3]), o)
-    r = rng.random()
-    if r < 0.3:
-        ty['info']['wizard'] = rng.choice(['yaml', 'toml', 'file'])
-        if ty['info']['wizard'] != 'file':
-            ty['info']['meta'] = None
+    ty = strip_shapes(ty)
+    unions = [(n, ft) for n, ft in ty['ftys'] if ft['k'] == 'union' and len(ft['a']) >= 2]
+    if unions and rng.random() < 0.6:
+        import copy as _copy
+        n0, u0 = rng.choice(unions)
+        u1 = _copy.deepcopy(u0)
+        u1['a'] = list(reversed(u1['a']))
+        # nested classes keep their identity (same definitions), only the argument order changes
+        idx = next(i for i, f in enumerate(ty['info']['fields']) if f['name'] == n0) + 1
+        ty['info']['fields'].insert(idx, {'name': n0 + '_rev'} if 'dflt' not in ty['info']['fields'][idx - 1] else
+                                    dict(ty['info']['fields'][idx - 1], name=n0 + '_rev'))
+        ty['ftys'].append([n0 + '_rev', u1])
+    kc, dump = rng.choice(PAIRS)
+    meta = {'v1': True}
+    if kc is not None:
+        meta['v1_key_case'] = kc
+    if dump is not None:
+        meta['key_transform_with_dump'] = dump
+    ty['info']['meta'] = meta
+    if ty['info']['wizard'] and rng.random() < 0.25:
+        ty['info']['wizard'] = 'file'
     return ty
 
 
@@ -92,7 +142,7 @@ def run(ctx: C.Ctx):
     rng = ctx.rng
     gen.SUBS = False
     from dataclass_wizard import asdict, fromdict
-    ctx.rule = ('random class models over the C01 grammar (depth ≤ 3, every leaf at every container position, Union of '
+    ctx.rule = ('v1 engine: random class models over the C02 grammar (C01 grammar + bytes/bytearray), consistent (v1_key_case, dump transform) pairs incl. AUTO; the C01 grammar (depth ≤ 3, every leaf at every container position, Union of '
                 'JSON-distinguishable members, tagged dataclass unions, NamedTuple/TypedDict/Enum/Literal; dump key transform in '
                 '{unset,CAMEL,PASCAL,LISP,SNAKE,NONE}) with one conforming instance each: fromdict(asdict(x)), from_json(to_json(x)), '
                 'from_list/list_to_json, YAML/TOML/JSON-file mixins when the format carries the payload; the load of the dumped '
@@ -112,6 +162,14 @@ def run(ctx: C.Ctx):
         try:
             neg = (i % 40 == 39)
             x = gen.gen_instance(rng, ty, built)
+            for n_, ft_ in ty['ftys']:
+                if n_.endswith('_rev') and ft_['k'] == 'union' and rng.random() < 0.7:
+                    ks_ = [m['k'] for m in ft_['a']]
+                    if 'str' in ks_:
+                        setattr(x, n_, rng.choice(['ab', '', 'x y']))
+                        setattr(x, n_[:-4], rng.choice(['ab', 'zz']))
+                    elif 'dict' in ks_:
+                        setattr(x, n_, {})
             if not ctx.begin_case(i):
                 continue
             case = {'ty': ty, 'inst': repr(x)[:500]}
@@ -137,18 +195,19 @@ def run(ctx: C.Ctx):
                 check_rt(ctx, 'roundtrip:jsonified', case, out_j, x, src, key)
                 st = model.StdTables()
                 st.add_json(jd)
-                reqs.append({'op': 'load', 'ty': model.enc_ty(ty), 'doc': model.enc_j(jd), 'std': st.build()})
+                reqs.append({'op': 'loadv1', 'ty': model.enc_ty(ty), 'doc': model.enc_j(jd), 'std': st.build()})
                 pend.append((case, out_j, built))
             if hasattr(Cls, 'from_json'):
                 out = load_outcome(lambda: Cls.from_json(x.to_json()))
                 check_rt(ctx, 'roundtrip:json', case, out, x, src, key)
                 out = load_outcome(lambda: Cls.from_list(json.loads(Cls.list_to_json([x, x]))))
-                if out[0] == 'ok':
-                    ok = len(out[1]) == 2 and all(ref.same_typed(y, x) for y in out[1])
-                    if not ok and key is None:
-                        ctx.fail('roundtrip:list', case, f'from_list(list_to_json([x, x])) = {out[1]!r} != [x, x]', detail=src)
-                elif key is None:
-                    ctx.fail('roundtrip:list', case, f'from_list(list_to_json([x, x])) raised {out[1]!r}', detail=src)
+                if out[0] == 'ok' and len(out[1]) == 2:
+                    for y_ in out[1]:
+                        check_rt(ctx, 'roundtrip:list', case, ('ok', y_), x, src, key)
+                elif out[0] == 'ok':
+                    ctx.fail('roundtrip:list', case, f'from_list(list_to_json([x, x])) returned {len(out[1])} elements', key=key, detail=src)
+                else:
+                    check_rt(ctx, 'roundtrip:list', case, out, x, src, key)
             text_formats(ctx, case, x, Cls, built, src, key)
         finally:
             built.close()
@@ -156,6 +215,19 @@ def run(ctx: C.Ctx):
         outs = ctx.driver.run(reqs)
         for (case, impl_out, built), o in zip(pend, outs):
             compare_load(ctx, 'load-of-dump', case, impl_out, o, built)
+
+
+def _union_container_first(t):
+    """is this a Union with a sequence member listed before a str / dict member"""
+    k = t['k']
+    if k == 'union':
+        seen_seq = False
+        for m in t['a']:
+            if m['k'] in ('list', 'set', 'frozenset', 'deque', 'vtuple', 'tuple'):
+                seen_seq = True
+            elif m['k'] in ('str', 'dict', 'defaultdict', 'ordereddict', 'typeddict') and seen_seq:
+                return True
+    return False
 
 
 def _known_key(x):
@@ -180,7 +252,14 @@ def check_rt(ctx, kind, case, out, x, src, key):
     if out[0] == 'err':
         ctx.fail(kind, case, f'load of the dumped instance raised {type(out[1]).__name__}: {str(out[1])[:300]}', key=key, detail=src)
     elif not ref.same_typed(out[1], x):
-        ctx.fail(kind, case, f'load(dump(x)) differs from x at {ref.first_diff(out[1], x)} (loaded vs original)'[:1500], key=key, detail=src)
+        where = ref.first_diff(out[1], x)
+        if key is None:
+            u = ref.union_on_path(case['ty'], ref.diff_steps(x, out[1]), x)
+            if u is not None and _union_container_first(u):
+                import re as _re
+                if _re.search(r': (list|set|frozenset|deque|tuple) .* vs (str|dict|OrderedDict|defaultdict) ', where):
+                    key = 'v1-union-container-try-parse'
+        ctx.fail(kind, case, f'load(dump(x)) differs from x at {where} (loaded vs original)'[:1500], key=key, detail=src)
 
 
 def text_formats(ctx, case, x, Cls, built, src, key):
